@@ -37,6 +37,7 @@ inductive Kind where
   | cell     -- `Reference` / `Lazy` userdata
   | shallow  -- array of `Repr::String`
   | udata    -- userdata without `deep_clone`
+  | code     -- the `BytecodeFunction` a closure points to (always in a global heap)
   deriving DecidableEq, Repr, Inhabited
 
 structure Obj where
@@ -44,7 +45,7 @@ structure Obj where
   home : HeapId
   kind : Kind
   edges : List Nat
-  deriving Repr, Inhabited
+  deriving Repr, Inhabited, DecidableEq
 
 structure State where
   obj : Nat → Option Obj
@@ -61,6 +62,10 @@ def State.push (s : State) (o : Obj) : State :=
 
 def State.ofList (os : List Obj) (groots : List Nat := []) : State :=
   { obj := fun i => os[i]?, next := os.length, groots := groots }
+
+/-- Same as `ofList` with constant-time lookup (used by the drivers for large snapshots). -/
+def State.ofArray (os : Array Obj) (groots : List Nat := []) : State :=
+  { obj := fun i => os[i]?, next := os.size, groots := groots }
 
 def State.setEdges (s : State) (n : Nat) (es : List Nat) : State :=
   { s with obj := fun i => if i = n then (s.obj n).map (fun o => { o with edges := es }) else s.obj i }
@@ -197,6 +202,9 @@ def cloneVal (dst thr : HeapId) (rgen : Option Nat) (fixed : Bool) :
       match o.kind with
       | .udata => none   -- value.rs:44 "Userdata cannot be cloned"
       | .thread => none   -- value.rs:1586 "Threads cannot be deep cloned yet"
+      -- value.rs:1722-1726 `ClosureDataDef(&data.function, …)`: the function pointer of a closure
+      -- is copied verbatim, also under `force_full_clone`
+      | .code => some (c, v)
       | .plain => viaVisited (cloneVal dst thr rgen fixed f) dst c v o .plain dst
       | .shallow =>
         if fixed then viaVisited (cloneVal dst thr rgen fixed f) dst c v o .shallow dst
